@@ -126,6 +126,15 @@ PeerClose(p) ==
      ELSE UNCHANGED <<rcv, rdata, pending>>
   /\ lastAct' = [a |-> "peer_close", p |-> p]
   /\ UNCHANGED <<st, held, pl, rq, inbox, readable, ops, nextMsg, sent, got, lost>>
+\* the application closes the connection (nng_pipe_close): pull0_pipe_close; a message still held for it is freed
+PipeClose(p) ==
+  /\ st[p] = "up" /\ <<"recv_cb", p>> \notin pending
+  /\ st' = [st EXCEPT ![p] = "gone"]
+  /\ pl' = Remove(pl, p) /\ readable' = (Remove(pl, p) # <<>>)
+  /\ lost' = lost \cup (IF held[p] # 0 THEN {held[p]} ELSE {}) \cup SeqSet(inbox[p])
+  /\ held' = [held EXCEPT ![p] = 0] /\ inbox' = [inbox EXCEPT ![p] = <<>>] /\ rcv' = [rcv EXCEPT ![p] = FALSE]
+  /\ lastAct' = [a |-> "pipe_close", p |-> p]
+  /\ UNCHANGED <<rq, rdata, pclosed, pending, ops, nextMsg, sent, got>>
 \* pull0_recv_cb
 RunRecvCb(p) ==
   /\ <<"recv_cb", p>> \in pending
@@ -157,7 +166,7 @@ RunRecvCb(p) ==
   /\ UNCHANGED <<pclosed, nextMsg, sent>>
 
 Next == \/ RecvNb \/ RecvAio \/ (\E k \in 1..MaxOps : Cancel(k) \/ RunCb(k))
-        \/ (\E p \in Pipes : Connect(p) \/ Inject(p) \/ PeerClose(p) \/ RunRecvCb(p))
+        \/ (\E p \in Pipes : Connect(p) \/ Inject(p) \/ PeerClose(p) \/ PipeClose(p) \/ RunRecvCb(p))
         \/ RunAccept
 Spec == Init /\ [][Next]_vars
 
